@@ -281,7 +281,33 @@ def report(paths):
             print('%s %s %s:%d  [%s]\n   - %s\n   + %s' % (r['id'], r['result'], r['file'], r['line'], r['op'], r['old'].strip(), r['new'].strip()))
 
 
+def one(path, mid, checks):
+    """apply one mutant of the list to the REAL /repo (must be clean), run the given quick tiers, undo"""
+    assert not subprocess.run(['git', '-C', '/repo', 'status', '--porcelain'], capture_output=True, text=True).stdout.strip(), '/repo not clean'
+    m = [json.loads(l) for l in open(path) if json.loads(l)['id'] == mid][0]
+    p = '/repo/' + m['file']
+    lines = open(p).read().split('\n')
+    assert lines[m['line'] - 1] == m['old'], 'stale'
+    lines[m['line'] - 1] = m['new']
+    open(p, 'w').write('\n'.join(lines))
+    try:
+        for pid in checks or m['props']:
+            rc, out = sh('cd /verif && VERIF_SEED=1 VERIF_FUZZ_RUNS=0 ./check %s quick' % pid, 1800)
+            sh('rm -rf /verif/replays/%s/found' % pid, 60)
+            cl = re.search(r'^clause: (.*)$', out, re.M)
+            ky = re.search(r'^key: (.*)$', out, re.M)
+            print(mid, m['file'].split('/')[-1], m['line'], pid, 'rc=%d' % rc, (cl.group(1) if cl else '') + '|' + (ky.group(1)[:70] if ky else ''), flush=True)
+            if rc == 1:
+                break
+    finally:
+        sh('git -C /repo checkout -q -- src', 60)
+        sh('cd /verif && git checkout -q evidence', 60)
+
+
 if __name__ == '__main__':
+    if sys.argv[1] == 'one':
+        one(sys.argv[2], sys.argv[3], sys.argv[4:])
+        sys.exit(0)
     if sys.argv[1] == 'gen':
         gen(int(sys.argv[2]), int(sys.argv[3]), sys.argv[4:] or None)
     elif sys.argv[1] == 'run':
